@@ -62,6 +62,9 @@ def comparison(ctx):
             ctx.fail("R04.1", "operator", "the size comparison uses %s between the declared length and the limit; the property needs strict `length > limit`" % big[1], fn.loc(lf.bb))
             continue
         err = is_size_err(rk[1]) if rk[0] == "Err" else None
+        if big is None and find_outcome(lf) == "some0" and conn.cl_zero_truth(lf) is False:
+            # the end of the headers was found, a length is declared, and the path leaves without having asked the limit
+            ctx.fail("R04.1", "limit-asked-whenever-a-length-is-declared|bb%d" % lf.bb, "a path that finds the end of the headers with Content-Length != 0 ends (%s) without comparing the length with the limit: for those requests n > L is not answered with SizeLimitExceeded(L, n)" % rk[0], fn.loc(lf.bb))
         if big is not None:
             n_cmp += 1
             # operands
@@ -129,6 +132,14 @@ def line_limit(ctx):
         seen = 0
         for lf in lv:
             if find_outcome(lf) != "none":
+                # ... and the reverse: a path that treats the line as unfinished (carries it over, or refuses it as too long) has
+                # asked find(buffer[start..end], CRLF) and was told None -- a short cut that answers "no line end" from anything
+                # less than a search of the whole window refuses lines that do fit
+                rk0 = ret_kind(lf)
+                e0 = look(rk0[1]) if rk0 is not None and rk0[0] == "Err" else None
+                gives_up = any(e[0] == "call" and e[3] == conn.SHIFT for e in lf.events) or (e0 is not None and e0[0] == "agg" and e0[2] == "ParseError" and errpred(look(e0[3][0])))
+                if gives_up:
+                    ctx.fail("R04.3", "unfinished-only-after-full-search|%s|bb%d" % (label, lf.bb), "a path of the %s parser carries the line over / refuses it as too long without find(buffer[start..end], CRLF) having answered None on it" % label, fn.loc(lf.bb))
                 continue
             rk = ret_kind(lf)
             if rk is None:
